@@ -19,9 +19,9 @@ import (
 
 	"github.com/0xReLogic/Helios/internal/adminapi"
 	"github.com/0xReLogic/Helios/internal/circuitbreaker"
-	"github.com/0xReLogic/Helios/internal/ratelimiter"
 	"github.com/0xReLogic/Helios/internal/config"
 	lbp "github.com/0xReLogic/Helios/internal/loadbalancer"
+	"github.com/0xReLogic/Helios/internal/ratelimiter"
 )
 
 // ---- race suite (C12): a concurrent operation mix on the real balancer under the race detector (build with -race) ----
@@ -37,7 +37,20 @@ type RcCase struct {
 	Goroutines int    `json:"goroutines"`
 	Millis     int    `json:"millis"`
 	Seed       uint64 `json:"seed"`
+	Churn      bool   `json:"churn,omitempty"` // one goroutine does nothing but add and remove one backend while the others send traffic
 }
+
+// brokenPipeWriter: a scraper that went away: the header goes out, every body write fails
+type brokenPipeWriter struct{ h http.Header }
+
+func (w *brokenPipeWriter) Header() http.Header {
+	if w.h == nil {
+		w.h = http.Header{}
+	}
+	return w.h
+}
+func (w *brokenPipeWriter) WriteHeader(int)           {}
+func (w *brokenPipeWriter) Write([]byte) (int, error) { return 0, errors.New("write: broken pipe") }
 
 // mixRT: backend transport with a mix of outcomes
 type mixRT struct{ n *atomic.Uint64 }
@@ -257,6 +270,15 @@ func runRcCase(c RcCase) (string, map[string]int, []string) {
 						panics.Add(1)
 					}
 				}()
+				if c.Churn && id == 0 { // nothing but membership changes of one name, as fast as they go
+					name := "x9"
+					lb.AddBackend(config.BackendConfig{Name: name, Address: "http://rcx9.probe", Weight: 1}) // its own transport: nothing of the harness is written into a backend that serves
+					if g.Chance(50) {
+						time.Sleep(time.Duration(g.Intn(40)) * time.Microsecond)
+					}
+					lb.RemoveBackend(name)
+					return
+				}
 				switch x := g.Intn(100); {
 				case x < 62: // client traffic
 					req := httptest.NewRequest("GET", "http://lb.local/x", nil)
@@ -280,7 +302,9 @@ func runRcCase(c RcCase) (string, map[string]int, []string) {
 					req.RemoteAddr = "127.0.0.1:999"
 					mux.ServeHTTP(httptest.NewRecorder(), req)
 				case x < 80: // metrics and health reads
-					if g.Bool() {
+					if g.Chance(12) { // the scraper went away while the reply was being written
+						mc.MetricsHandler()(&brokenPipeWriter{}, httptest.NewRequest("GET", "/metrics", nil))
+					} else if g.Bool() {
 						mc.MetricsHandler()(httptest.NewRecorder(), httptest.NewRequest("GET", "/metrics", nil))
 					} else {
 						mc.HealthHandler()(httptest.NewRecorder(), httptest.NewRequest("GET", "/health", nil))
@@ -344,6 +368,10 @@ func TestRace(t *testing.T) {
 	for i := 0; i < n; i++ {
 		cases = append(cases, RcCase{Strategy: strategyNames[i%5], Breaker: g.Bool(), Limiter: g.Bool(), Active: g.Bool(), Passive: g.Bool(), Pool: g.Bool(),
 			Goroutines: []int{8, 16, 32, 64}[g.Intn(4)], Millis: ms, Seed: g.U64() % 100000})
+	}
+	// traffic against a backend that is added and removed without pause, every strategy
+	for i := 0; i < 5; i++ {
+		cases = append(cases, RcCase{Strategy: strategyNames[i], Passive: i%2 == 0, Goroutines: 16, Millis: ms, Seed: uint64(77 + i), Churn: true})
 	}
 	for _, k := range []string{"breaker", "limiter", "pool"} {
 		cases = append(cases, RcCase{Kind: k, Goroutines: 8}, RcCase{Kind: k, Goroutines: 32})
